@@ -427,4 +427,50 @@ theorem abandoned_step (σ : State) (op : Op) (s : Nat) (h : s ∈ (step σ op).
         (fun a e => ht ⟨a, e⟩) (fun a e => hp ⟨a, e⟩)
       rw [this] at h; exact h
 
+
+/-- In the SAME process lifetime: one retry pass with the server up delivers every record of the retry map
+    (whatever API call is parked in whatever frame, as long as the processor goroutine is alive). -/
+theorem retry_delivers_core (σ : State) (hup : σ.up = true) (halive : procAlive σ.vol.pc = true)
+    (hidle : σ.vol.ppc = none) (order : List Nat) :
+    ∃ N, ∀ n, N ≤ n →
+      (run σ (Op.retry order :: pticks n)).vol.ppc = none ∧
+      (run σ (Op.retry order :: pticks n)).vol.pc = σ.vol.pc ∧
+      ∀ id p, findP σ.vol.pending id = some p → p.req ∈ (run σ (Op.retry order :: pticks n)).log := by
+  have hstep : step σ (.retry order) = callRetry σ order := by
+    simp [step, hup, halive, hidle]
+  have hpc : (callRetry σ order).vol.ppc =
+      nextProc (callRetry σ order).vol.pending (normalize order (σ.vol.pending.map (·.id))) := rfl
+  obtain ⟨k, _, pd⟩ := procLoop _ (callRetry σ order) hpc
+  refine ⟨k, fun n hn => ?_⟩
+  have e : run σ (Op.retry order :: pticks n) = run (callRetry σ order) (pticks k) := by
+    rw [run, hstep, run_pticks_ge pd.pc hn]
+  rw [e]
+  refine ⟨pd.pc, by rw [pd.apc]; rfl, ?_⟩
+  intro id p hp
+  apply pd.acked id _ p hp
+  apply mem_normalize
+  have := findP_id hp
+  rw [← this]
+  exact List.mem_map.mpr ⟨p, findP_mem hp, rfl⟩
+
+/-- the channel delivery: `deq` with the server up delivers the record at the head of the queue -/
+theorem deq_delivers_core (σ : State) (hup : σ.up = true) (halive : procAlive σ.vol.pc = true)
+    (hidle : σ.vol.ppc = none) (id : Nat) (q : List Nat) (hq : σ.vol.queue = id :: q) :
+    ∃ N, ∀ n, N ≤ n →
+      (run σ (Op.deq :: pticks n)).vol.ppc = none ∧
+      ∀ p, findP σ.vol.pending id = some p → p.req ∈ (run σ (Op.deq :: pticks n)).log := by
+  have hstep : step σ .deq = callDeq σ := by
+    simp [step, hup, halive, hidle]
+  have hcall : (callDeq σ).vol.ppc = nextProc (callDeq σ).vol.pending [id] ∧
+      (callDeq σ).vol.pending = σ.vol.pending := by
+    unfold callDeq; rw [hq]; exact ⟨rfl, rfl⟩
+  obtain ⟨k, _, pd⟩ := procLoop [id] (callDeq σ) hcall.1
+  refine ⟨k, fun n hn => ?_⟩
+  have e : run σ (Op.deq :: pticks n) = run (callDeq σ) (pticks k) := by
+    rw [run, hstep, run_pticks_ge pd.pc hn]
+  rw [e]
+  refine ⟨pd.pc, ?_⟩
+  intro p hp
+  exact pd.acked id (by simp) p (by rw [hcall.2]; exact hp)
+
 end Bng.Acct
